@@ -193,4 +193,55 @@ example :
       .main, .main, .main, .main, .main, .main, .main, .main, .main, .main, .main] = [0x1B, 0x41] := by
   refine ⟨?_, ?_, ?_⟩ <;> decide +kernel
 
+/-- **`complete_schedule_is_reduced` with an observed `Close()`.**  `TimerOk` table, from the initial
+    state, a complete schedule `ls` of single statements (result `r`, `finished r.1`) with at most one
+    `closeSig` which is observed: in the normal form it is issued while the main goroutine stands in
+    front of the `select` (`closeAt`; by `closeNormal` it then stands directly in front of that `select`;
+    the alternative — it has travelled to the end of the schedule, nobody looked at it — is excluded by
+    this hypothesis).  Then `s = toS T false init (normalForm T init ls)` satisfies `srun T init s = some r`
+    and `Reduced T init (runes ls) (ls.contains closeSig) s`, and under the fuel and cap hypotheses of
+    `enumerate_complete` it is in the enumeration.  (`init` = `FSys.init` = `{}`.) -/
+theorem complete_schedule_is_reduced_close (T : Table) (hT : VaxisModel.Lemmas.ParserRunFine.TimerOk T)
+    (ls : List FLabel) (r : FSys × List Seq) (h : FSys.run T FSys.init ls = some r)
+    (hfin : VaxisModel.Model.ParserRunSched.finished r.1 = true) (hcnt : ls.count .closeSig ≤ 1)
+    (hobs : closeAt T FSys.init (normalForm T FSys.init ls) = true) :
+    (normalForm T FSys.init ls).Perm ls ∧ FSys.run T FSys.init (normalForm T FSys.init ls) = some r ∧
+    VaxisModel.Model.ParserRunSched.srun T FSys.init (toS T false FSys.init (normalForm T FSys.init ls)) = some r ∧
+    VaxisModel.Props.C08Sched.Reduced T FSys.init (runes ls) (ls.contains .closeSig)
+      (toS T false FSys.init (normalForm T FSys.init ls)) ∧
+    ∀ fuel cap, (toS T false FSys.init (normalForm T FSys.init ls)).length < fuel →
+      (VaxisModel.Model.ParserRunSched.enumerate T fuel FSys.init (runes ls) (ls.contains .closeSig) [] cap []).length < cap →
+      toS T false FSys.init (normalForm T FSys.init ls) ∈
+        VaxisModel.Model.ParserRunSched.enumerate T fuel FSys.init (runes ls) (ls.contains .closeSig) [] cap [] := by
+  have hf := hfin
+  simp only [VaxisModel.Model.ParserRunSched.finished, Bool.and_eq_true, decide_eq_true_eq, List.all_eq_true] at hf
+  obtain ⟨⟨hd, hg⟩, _⟩ := hf
+  obtain ⟨h1, h2, h3, _, h5, h6, h7⟩ := normal_form_explicit T hT FSys.init
+    VaxisModel.Lemmas.ParserRunFine.FInv_init rfl ls r h
+    (fun i hi => by rw [hd] at hi; cases hi)
+    (fun c hc => by have := hg c hc; rw [this]; exact ⟨by decide, by decide⟩)
+  have hcnt' : (normalForm T FSys.init ls).count .closeSig ≤ 1 := by rw [h2.count_eq]; exact hcnt
+  have hcon : (normalForm T FSys.init ls).contains .closeSig = ls.contains .closeSig := by
+    rw [Bool.eq_iff_iff]; simp only [List.contains_iff_mem]; exact h2.mem_iff
+  have hred := reduced_core_mc T (normalForm T FSys.init ls) FSys.init false r h1 hfin ⟨hobs, hcnt'⟩ h5 h6 h3
+    (fun h => by cases h) (fun i h => by cases h)
+  rw [h7, hcon] at hred
+  refine ⟨h2, h1, ?_, hred, fun fuel cap hl hc =>
+    VaxisModel.Props.C08Sched.enumerate_complete T fuel (runes ls) _ cap _ hred hl hc⟩
+  rw [toS_run T _ FSys.init (by rw [h1]; rfl) h5 h6 (fun i h => by cases h)]; exact h1
+
+-- non-vacuity: `A` is read and printed; `Close()` is called while the main goroutine is inside the mutex (not in
+-- front of the `select`); the run ends through the close arm: complete, one observed `Close()`.  Normal form:
+-- `Close()` directly in front of the `select`; harness schedule `main, read A, main×5, close, main×7`.
+example :
+    (FSys.run handTable FSys.init [.main, .readRet (.rune 0x41), .main, .main, .closeSig, .main, .main, .main, .main,
+       .main, .main, .main, .main, .main, .main]).map (fun r => (VaxisModel.Model.ParserRunSched.finished r.1, r.2)) =
+      some (true, [.print 0x41, .eof]) ∧
+    closeAt handTable FSys.init (normalForm handTable FSys.init [.main, .readRet (.rune 0x41), .main, .main, .closeSig,
+       .main, .main, .main, .main, .main, .main, .main, .main, .main, .main]) = true ∧
+    toS handTable false FSys.init (normalForm handTable FSys.init [.main, .readRet (.rune 0x41), .main, .main, .closeSig,
+       .main, .main, .main, .main, .main, .main, .main, .main, .main, .main]) =
+      [.main, .read (.rune 0x41), .main, .main, .main, .main, .close, .main, .main, .main, .main, .main, .main, .main] := by
+  refine ⟨?_, ?_, ?_⟩ <;> decide +kernel
+
 end VaxisModel.Props.C08SchedEnum
